@@ -1,6 +1,7 @@
 // Verus unit c25_value — C25: PropertyValue::{encode, decode, decode_recursive} round-trip, are total,
 // and never request an allocation larger than the input.  Bodies extracted from nervusdb-api/src/lib.rs.
 //@unit c25_value
+//@rlimit 50
 //@property C25
 use vstd::prelude::*;
 use std::collections::BTreeMap;
